@@ -262,6 +262,27 @@ impl<'t, F: Kind + BooleanFunction> Session<'t, F> {
         self.out.emit(json!({"ev":"drop","a":s}));
         drop(f);
     }
+    /// drop the handle in slot `s` through `Manager::try_remove_node`
+    pub fn try_remove_h(&mut self, s: Slot) {
+        let Some(f) = self.slots[s].take() else { return };
+        self.out.emit(json!({"ev":"begin","what":"try_remove"}));
+        let r = catch(|| F::try_remove(&self.mref, f));
+        match r {
+            Ok(rm) => {
+                // (no JSON null: the TLC Json module cannot read it)
+                let removed = match rm {
+                    Some(true) => "yes",
+                    Some(false) => "no",
+                    None => "terminal",
+                };
+                self.out.emit(json!({"ev":"drop","a":s,"via":"try_remove","removed":removed}))
+            }
+            Err(p) => {
+                self.out.emit(json!({"ev":"drop","a":s,"via":"try_remove","res":{"panic":p}}));
+                self.dead = true;
+            }
+        }
+    }
     pub fn gc(&mut self) -> usize {
         let (before, after, ret) = self.mref.with_manager_shared(|m| {
             let b = m.num_inner_nodes();
